@@ -2,6 +2,13 @@
 """writes MANIFEST.json from the table below (keeps it valid and in one place)"""
 import json, os
 CHECKS = {
+ 'C12': dict(technique='reference-count pairing typestate (R-REF-TMP), computed holder types with release-before-free (R-REF-HOLD), event-before-free must-precede rule (R-SESS-EVT), linear ownership of local heap objects (R-OWN-LOCAL)',
+             text='Every path of every library function: temporary session references are paired; every object type that stores a session reference '
+                  '(computed from the assignments) releases it before it is freed or cleared, also through freeing helpers; a server session is freed only '
+                  'after SERVER_SESSION_DEL was raised for it; strings/binaries/optlists/cache keys created in a function are released, stored, returned or '
+                  'handed on on every path. Necessary for "live while referenced; everything released; one NEW/DEL event". Peer-to-session bijection and '
+                  'reclamation timing are not decided.',
+             design='6 C12'),
  'C18': dict(technique='NULL-check typestate for computed may-fail constructors (R-ALLOC-NULL) + linear ownership of PDUs with computed consumer summaries (R-OWN-PDU)',
              text='Library-wide, every path: the result of every (computed) may-fail constructor is NULL-tested before any dereference or hand-over to a '
                   'dereferencing callee; every PDU created or received through a consuming parameter is released/handed on/stored exactly once, never used '
